@@ -17,6 +17,15 @@ namespace foonathan
     {
         namespace detail
         {
+            // whether fence + offset + size + fence bytes fit into remaining bytes
+            // checks the parts separately as the sum might overflow for huge sizes
+            inline bool stack_allocation_fits(std::size_t fence_size, std::size_t offset,
+                                              std::size_t size, std::size_t remaining) noexcept
+            {
+                auto overhead = fence_size + offset + fence_size;
+                return overhead <= remaining && size <= remaining - overhead;
+            }
+
             // simple memory stack implementation that does not support growing
             class fixed_memory_stack
             {
@@ -76,7 +85,7 @@ namespace foonathan
 
                     auto remaining = std::size_t(end - cur_);
                     auto offset    = align_offset(cur_ + fence_size, alignment);
-                    if (fence_size + offset + size + fence_size > remaining)
+                    if (!stack_allocation_fits(fence_size, offset, size, remaining))
                         return nullptr;
 
                     return allocate_unchecked(size, offset, fence_size);
